@@ -61,3 +61,30 @@ def build(scratch_parent=None, shim=True, harness="vh", race=False):
         shutil.rmtree(tmp, ignore_errors=True)
         raise ShadowError("harness does not build against the current tree:\n" + msg)
     return tmp, os.path.join(vh, harness)
+
+
+def coverage_of(tmp, vh, mode, cases_path):
+    """Builds a coverage-instrumented harness next to vh, runs it once on cases_path, returns statement coverage of
+    the (shadow) gobptree package as a dict, or None."""
+    vhd = os.path.dirname(vh)
+    r = subprocess.run(["go", "build", "-cover", "-coverpkg=github.com/karrick/gobptree,vh", "-tags", "verif", "-o", "vhcov", "."],
+                       cwd=vhd, env=go_env(), capture_output=True, text=True)
+    if r.returncode != 0:
+        return None
+    cov = os.path.join(tmp, "cov-" + mode)
+    os.makedirs(cov, exist_ok=True)
+    subprocess.run([os.path.join(vhd, "vhcov"), mode, cases_path, os.path.join(tmp, "cov.out")], env=dict(os.environ, GOCOVERDIR=cov),
+                   capture_output=True, text=True)
+    r = subprocess.run(["go", "tool", "covdata", "func", "-i=" + cov], cwd=vhd, env=go_env(), capture_output=True, text=True)
+    per_file, low = {}, []
+    for line in r.stdout.splitlines():
+        m = re.match(r"^github.com/karrick/gobptree/(\w+\.go):\d+:\s+(\S+)\s+([\d.]+)%", line)
+        if m and not m.group(1).startswith("zz_verif"):
+            per_file.setdefault(m.group(1), []).append(float(m.group(3)))
+            if float(m.group(3)) < 100.0:
+                low.append("%s:%s %s%%" % m.groups())
+    r2 = subprocess.run(["go", "tool", "covdata", "percent", "-i=" + cov], cwd=vhd, env=go_env(), capture_output=True, text=True)
+    m = re.search(r"karrick/gobptree\s+coverage: ([\d.]+)%", r2.stdout)
+    return dict(package_statements_percent_incl_hooks=float(m.group(1)) if m else None,
+                mean_function_coverage_by_file={f: round(sum(v) / len(v), 1) for f, v in per_file.items()},
+                functions_below_100=low[:40])
